@@ -43,7 +43,7 @@ func statChanges(before, after run.Snapshot, paths []string) []mon.Problem {
 func c02(args []string) {
 	c := chk.New("C02", "exploration", args)
 	c.Build(false)
-	c.Rule("[gathered files] a task with a joined in-port whose output exists while parts of it are computed in the same run (file placed by the user; one part deleted after a complete run): not executed, file untouched; [interrupted runs] the run is killed inside a task's finalization (hook points after a declared output was renamed, temp directory still there) and re-run in place without cleanup: outputs already at their final paths keep inode/mtime/bytes and no command of their tasks runs; [links and pass-through] histories: complete run, an intermediate output that has a consumer is moved away and linked back (relative and absolute link), run again twice: no command runs, no file appears, every entry keeps inode/mtime/bytes; a process whose out-port path is its input path ({i:in}), file there before the first run: its command never runs and the file is never touched. generated non-streaming graphs of command / Go-function processes and sources; for each graph subsets of its tasks (all subsets when <= 5 tasks, else random ones) get all their outputs pre-placed (bytes of an earlier complete run incl. audit files / arbitrary user bytes / empty files), and the history 'complete run, run again in place' (also: 4-16 independent chains that end in the sink and fan into one merging process, also a process whose out-port is declared through SetOut only; chains / two-output tasks / diamonds with outputs in nested, parent-relative and absolute directories, re-run completely and after deleting the last process's outputs; 4-16 independent chains re-run 25-60 times in place as separate processes and 60-150 times inside one process, so that every process finishes at the same moment); oracle = no start event of a skipped task, (inode, size, mtime_ns, sha256) of every pre-existing output unchanged, downstream tasks executed exactly once on the pre-existing bytes (reference evaluation), re-run executes nothing. distinct_nontrivial = distinct (graph shape, subset, content kind) with >= 1 skipped and >= 1 executed task, plus re-run histories")
+	c.Rule("[changed wrapper] complete run, then the same workflow with another Prepend (different command lines, same output paths): nothing runs, nothing changes; [gathered files] a task with a joined in-port whose output exists while parts of it are computed in the same run (file placed by the user; one part deleted after a complete run): not executed, file untouched; [interrupted runs] the run is killed inside a task's finalization (hook points after a declared output was renamed, temp directory still there) and re-run in place without cleanup: outputs already at their final paths keep inode/mtime/bytes and no command of their tasks runs; [links and pass-through] histories: complete run, an intermediate output that has a consumer is moved away and linked back (relative and absolute link), run again twice: no command runs, no file appears, every entry keeps inode/mtime/bytes; a process whose out-port path is its input path ({i:in}), file there before the first run: its command never runs and the file is never touched. generated non-streaming graphs of command / Go-function processes and sources; for each graph subsets of its tasks (all subsets when <= 5 tasks, else random ones) get all their outputs pre-placed (bytes of an earlier complete run incl. audit files / arbitrary user bytes / empty files), and the history 'complete run, run again in place' (also: 4-16 independent chains that end in the sink and fan into one merging process, also a process whose out-port is declared through SetOut only; chains / two-output tasks / diamonds with outputs in nested, parent-relative and absolute directories, re-run completely and after deleting the last process's outputs; 4-16 independent chains re-run 25-60 times in place as separate processes and 60-150 times inside one process, so that every process finishes at the same moment); oracle = no start event of a skipped task, (inode, size, mtime_ns, sha256) of every pre-existing output unchanged, downstream tasks executed exactly once on the pre-existing bytes (reference evaluation), re-run executes nothing. distinct_nontrivial = distinct (graph shape, subset, content kind) with >= 1 skipped and >= 1 executed task, plus re-run histories")
 	c.Assume("subsets are subsets of tasks (all outputs of a task present), as the property quantifies; partial presence is C03's subject", ".audit.json files, log/ and atime are not judged")
 	rng := c.Rand("c02")
 	ngraphs := c.Pick(14, 120)
@@ -334,6 +334,7 @@ func c02(args []string) {
 	c02linksAndPassThrough(c)
 	c02interrupted(c)
 	c02joined(c)
+	c02changedWrapper(c)
 	c.Finish()
 }
 
@@ -927,5 +928,72 @@ func c02joined(c *chk.Ctx) {
 		}
 		c.Count("outputs_stat_compared", 1)
 		c.Nontrivial(fmt.Sprintf("joinedexisting|%v|%d", preplaced, i))
+	})
+}
+
+// c02changedWrapper: history 'complete run, then the same workflow again with another Prepend (time limit, niceness -
+// the command lines differ, the output paths do not)': existing outputs are existing outputs, whatever their audit
+// record says about how they were made.
+func c02changedWrapper(c *chk.Ctx) {
+	run.Parallel(c.Pick(3, 9), func(i int) {
+		root := c.CaseDir()
+		defer c.Drop(root)
+		mk := func(prepend string) *spec.Spec {
+			in, o1 := []spec.PortDecl{{Name: "in"}}, []spec.PortDecl{{Name: "out"}}
+			s := &spec.Spec{Name: "wrapper", MaxTasks: 2, Sources: map[string]string{"w0.txt": "w0\n", "w1.txt": "w1\n"}}
+			s.Procs = append(s.Procs, &spec.Proc{Name: "src", Kind: spec.KFileSource, Files: []string{"w0.txt", "w1.txt"}},
+				&spec.Proc{Name: "A", Kind: spec.KCmd, Prepend: prepend, Cmd: spec.BuildCmd("A", in, o1, nil, nil, nil)},
+				&spec.Proc{Name: "B", Kind: []string{spec.KCmd, spec.KGoFunc}[i%2], Prepend: prepend, Cmd: spec.BuildCmd("B", in, o1, nil, nil, nil)})
+			s.Conns = append(s.Conns, &spec.Conn{From: "src.out", To: "A.in"}, &spec.Conn{From: "A.out", To: "B.in"})
+			return s
+		}
+		first := []string{"env VERIF_WRAPPED=1", "", "env VERIF_LIMIT=10m"}[i%3]
+		second := []string{"env VERIF_WRAPPED=2 nice -n 5", "env VERIF_WRAPPED=1", ""}[i%3]
+		s1, s2 := mk(first), mk(second)
+		cfg := Cfg{Buf: 3, Procs: 2}
+		desc := map[string]interface{}{"first_run": s1, "second_run": s2, "history": fmt.Sprintf("complete run with Prepend %q, run again with Prepend %q", first, second)}
+		r1 := execSpec(c, root, s1, cfg, nil, false, 0)
+		if r1.Hang != "" && !strings.HasPrefix(r1.Hang, "deadlock") {
+			c.Inconclusive(r1.Hang)
+			return
+		}
+		if r1.Hang != "" || r1.Exit != 0 || !r1.Returned {
+			c.Violation("exit-nonzero", fmt.Sprintf("first run: exit %d %s: %s", r1.Exit, r1.Hang, tail(r1.Output(), 400)), desc)
+			return
+		}
+		before := run.Snap(r1.Wd)
+		var outs []string
+		for p, e := range before {
+			if e.Mode == "f" && strings.HasSuffix(p, ".out") {
+				outs = append(outs, p)
+			}
+		}
+		r2 := execSpec(c, root, s2, cfg, nil, true, 1)
+		if r2.Hang != "" && !strings.HasPrefix(r2.Hang, "deadlock") {
+			c.Inconclusive(r2.Hang)
+			return
+		}
+		var rp []mon.Problem
+		if r2.Hang != "" || r2.Exit != 0 || !r2.Returned {
+			rp = append(rp, mon.Problem{Sig: "rerun-failed", Msg: fmt.Sprintf("exit %d %s: %s", r2.Exit, r2.Hang, tail(r2.Output(), 400))})
+		}
+		for _, e := range r2.Trace {
+			if e.Ev == "start" {
+				rp = append(rp, mon.Problem{Sig: "rerun-executed-command", Msg: "the second run executed " + e.Key + " although its output exists"})
+			}
+		}
+		rp = append(rp, statChanges(before, run.Snap(r1.Wd), outs)...)
+		if len(rp) > 0 || len(outs) != 4 {
+			for _, sig := range sigSet(append(rp, mon.Problem{Sig: "wrapper-history", Msg: fmt.Sprint(len(outs), " outputs after the first run")})) {
+				if sig == "wrapper-history" && len(outs) == 4 {
+					continue
+				}
+				desc["problems"] = mon.Summarize(rp, 10)
+				c.Violation(sig, fmt.Sprintf("%v: %s", desc["history"], strings.Join(mon.Summarize(rp, 4), "\n  ")), desc)
+			}
+			return
+		}
+		c.Count("outputs_stat_compared", len(outs))
+		c.Nontrivial(fmt.Sprintf("wrapper|%d", i%3))
 	})
 }
